@@ -1,6 +1,6 @@
 #!/bin/sh
 # apply a behaviour-preserving refactoring to /repo, run EVERY check (quick), undo.  All must stay silent.
-P=$(readlink -f "$1"); cd /verif
+P=$(readlink -f "$1"); cd /verif; echo "== neutral change: $P"
 git -C /repo diff --quiet || { echo "/repo dirty"; exit 2; }
 git -C /repo apply "$P" || exit 2
 trap 'git -C /repo checkout -- .' EXIT
